@@ -188,7 +188,7 @@ func c20Check(c c20Case) (*eng.Fail, string) {
 
 func init() {
 	checks["C20"] = eng.Check{
-		Rule:        "ELF64-LE files written by the harness: type in {NONE, REL, EXEC, DYN, CORE} x <=2 (thorough 3) user sections (type PROGBITS/NOBITS/NOTE x flags {0, ALLOC, ALLOC|EXEC} x addr {0, 0x1000, 0x1004, 0x1008} x size {0,4,8}) x <=2 (thorough 3) program headers (type LOAD/NOTE x vaddr {0x1000,0x1004,0x1008} x filesz {0,4,8} x memsz {0,4,8,12} incl. memsz<filesz; plus LOAD headers that claim 4 bytes or 64 KiB more file bytes than were placed for them, i.e. a file extent reaching into the following file content or past the end of the file) — all combinations incl. overlapping and adjacent ones — through elf.NewParser/MachineCode/Memory/Entrypoint/Address. Oracle from the generator's description: REL/CORE/NONE and any overlap must be rejected; whatever loads must equal the description (code = qualifying sections as sorted blocks, adjacent ones not merged; memory = file bytes then zeros; Address(a) for every a in 0xff8..0x1020 = tail of its block or nil); plus a code section and a segment of 4 and 8 bytes ending exactly at 2^64 with lookups over the last 12 addresses. Non-trivial = file for which both images load.",
+		Rule:        "ELF64-LE files written by the harness: type in {NONE, REL, EXEC, DYN, CORE} x <=2 (thorough 3) user sections (type PROGBITS/NOBITS/NOTE x flags {0, ALLOC, ALLOC|EXEC} x addr {0, 0x1000, 0x1004, 0x1008} x size {0,4,8}) x <=2 (thorough 3) program headers (type LOAD/NOTE x vaddr {0x1000,0x1004,0x1008} x filesz {0,4,8} x memsz {0,4,8,12} incl. memsz<filesz; plus LOAD headers that claim 4 bytes or 64 KiB more file bytes than were placed for them, i.e. a file extent reaching into the following file content or past the end of the file; plus LOAD headers whose physical address differs from the virtual one) — all combinations incl. overlapping and adjacent ones — through elf.NewParser/MachineCode/Memory/Entrypoint/Address. Oracle from the generator's description: REL/CORE/NONE and any overlap must be rejected; whatever loads must equal the description (code = qualifying sections as sorted blocks, adjacent ones not merged; memory = file bytes then zeros; Address(a) for every a in 0xff8..0x1020 = tail of its block or nil); plus a code section and a segment of 4 and 8 bytes ending exactly at 2^64 with lookups over the last 12 addresses. Non-trivial = file for which both images load.",
 		Assumptions: []string{"errors are always acceptable outcomes (the property allows 'reports an error'); crashes are not", "files are well-formed ELF64 containers (corruption is C26's domain)"},
 		Run: func(r *eng.Run) {
 			dir, err := os.MkdirTemp("", "vc20")
@@ -239,6 +239,13 @@ func init() {
 							progs = append(progs, elfgen.Prog{Type: elfgen.PT_LOAD, Vaddr: va, Data: mkdata(fs, 0x80+byte(va)), Memsz: uint64(fs) + claim + extra, Claim: claim})
 						}
 					}
+				}
+			}
+			// segments whose physical (load) address differs from the virtual one: only the virtual
+			// address places the segment
+			for _, va := range []uint64{0x1000, 0x1004} {
+				for _, d := range []uint64{4, 0x10000, ^uint64(0) - 3} {
+					progs = append(progs, elfgen.Prog{Type: elfgen.PT_LOAD, Vaddr: va, Data: mkdata(4, 0x80+byte(va)), Memsz: 8, PaddrDelta: d})
 				}
 			}
 			r.Note("section alphabet=%d program-header alphabet=%d", len(secs), len(progs))
